@@ -734,6 +734,13 @@ class ConsumerMdib(mdibbase.MdibBase):
                     modification_type = report_part.ModificationType
                     if modification_type == dmt.CREATE:
                         for descriptor_container in report_part.Descriptor:
+                            old_container = self.descriptions.handle.get_one(descriptor_container.Handle, allow_none=True)
+                            if old_container is not None:
+                                # a duplicate of this report (or the descriptor arrived with the initial mdib)
+                                if descriptor_container.DescriptorVersion >= old_container.DescriptorVersion:
+                                    old_container.update_from_other_container(descriptor_container)
+                                    self.descriptions.update_object(old_container)
+                                continue
                             self.descriptions.add_object(descriptor_container)
                             self._logger.debug(  # noqa: PLE1205
                                 'process_incoming_descriptors: created description "{}" (parent="{}")',
@@ -742,8 +749,21 @@ class ConsumerMdib(mdibbase.MdibBase):
                             )
                             new_descriptor_by_handle[descriptor_container.Handle] = descriptor_container
                         for state_container in report_part.State:
+                            my_multi_key = multi_key(state_container)
+                            if state_container.is_context_state:
+                                old_state_container = my_multi_key.handle.get_one(state_container.Handle, allow_none=True)
+                            else:
+                                old_state_container = my_multi_key.descriptor_handle.get_one(
+                                    state_container.DescriptorHandle, allow_none=True)
+                            if old_state_container is not None:
+                                # the state is already known, e.g. its state report overtook this report
+                                if state_container.StateVersion >= old_state_container.StateVersion:
+                                    old_state_container.update_from_other_container(state_container)
+                                    self._set_descriptor_container_reference(old_state_container)
+                                    my_multi_key.update_object(old_state_container)
+                                continue
                             self._set_descriptor_container_reference(state_container)
-                            multi_key(state_container).add_object_no_lock(state_container)
+                            my_multi_key.add_object_no_lock(state_container)
                     elif modification_type == dmt.UPDATE:
                         updated_descriptor_containers = report_part.Descriptor
                         updated_state_containers = report_part.State
